@@ -299,6 +299,20 @@ func injRunPlain(c *injCase, tr *traceWriter) {
 		}
 	}
 	for _, o := range c.Hist {
+		if o.Op == "Lookup" {
+			// a lookup between registrations: invoke every signature that asks for that type
+			for k, sig := range injSigs {
+				for _, t := range sig {
+					if t == o.K {
+						rec := &injRec{}
+						vals, err := inj[o.S].Invoke(plainFn(k, rec))
+						emitInvoke(tr, o.S, k, false, rec, vals, err)
+						break
+					}
+				}
+			}
+			continue
+		}
 		applyOp(inj[o.S], o)
 		tr.emit(map[string]interface{}{"ev": "reg", "op": o.Op, "s": o.S, "k": o.K, "ct": o.Ct, "id": o.ID})
 	}
@@ -344,7 +358,7 @@ func idValOrNone(x interface{}, set bool) injVal {
 func injRunFlame(c *injCase, tr *traceWriter) {
 	f := flamego.NewWithLogger(io.Discard)
 	for _, o := range c.Hist {
-		if o.S == 1 {
+		if o.S == 1 && o.Op != "Lookup" {
 			applyOp(f, o)
 			tr.emit(map[string]interface{}{"ev": "reg", "op": o.Op, "s": 1, "k": o.K, "ct": o.Ct, "id": o.ID})
 		}
@@ -352,7 +366,7 @@ func injRunFlame(c *injCase, tr *traceWriter) {
 	cur := 0
 	mapper := func(ctx flamego.Context) {
 		for _, o := range c.Hist {
-			if o.S == cur {
+			if o.S == cur && o.Op != "Lookup" {
 				applyOp(ctx, o)
 				tr.emit(map[string]interface{}{"ev": "reg", "op": o.Op, "s": cur, "k": o.K, "ct": o.Ct, "id": o.ID})
 			}
@@ -410,7 +424,9 @@ func injGen(seed int64, n int, args []string, out *json.Encoder) {
 		for j := 0; j < k; j++ {
 			s := 1 + rng.Intn(3)
 			id := 1 + rng.Intn(9)
-			switch r := rng.Intn(10); {
+			switch r := rng.Intn(13); {
+			case r >= 10:
+				c.Hist = append(c.Hist, injOp{"Lookup", s, []string{"T1", "PT1", "I1", "I2", "I3", "RCH", "N1"}[rng.Intn(7)], "", 0})
 			case r < 5:
 				ct := conc[rng.Intn(len(conc))]
 				c.Hist = append(c.Hist, injOp{"Map", s, ct, ct, id})
